@@ -103,6 +103,7 @@ class Worker(EnumWorker):
             if M < 1 or M > 6:
                 out.append({'label': label, 'M': M, 'runs': 1, 'viol': []})
                 continue
+            vq = tuple(int(x) for x in q['mv'].split('.'))
             U = [key(a) for a in full]
             Uset = set(U)
             runs = 1
@@ -130,7 +131,12 @@ class Worker(EnumWorker):
                         got = [key(a) for a in r.json['allocation_requests']]
                         outcomes[(randomize, limit, tuple(sorted(got)))] += 1
                         want_n = min(limit, M)
-                        if len(got) != want_n or len(set(got)) != len(got):
+                        # below 1.34 the response does not show mappings, so two requests that
+                        # differ only in their mappings look alike: compare as multisets there
+                        dup_ok = vq < (1, 34)
+                        cg, cu = collections.Counter(got), collections.Counter(U)
+                        if len(got) != want_n or (not dup_ok and len(set(got)) != len(got)) or \
+                                any(cg[k] > cu[k] for k in cg if k in cu):
                             viol.append(('count', 'limit=%d randomize=%s script=%s returned %d '
                                          'requests (%d distinct), expected exactly %d distinct' % (
                                              limit, randomize, list(script), len(got),
@@ -181,7 +187,8 @@ def plan(ctx):
         if name in seen:
             continue
         seen.add(name)
-        qs = acq.queries(desc, kq, (MV,))
+        # 1.28: not nested-aware (summaries pruned differently); 1.16: limit was introduced
+        qs = acq.queries(desc, kq, (MV,), ('1.28', '1.16'))
         for i in range(0, len(qs), 50):
             cases.append({'state': name, 'setup': setup, 'queries': qs[i:i + 50],
                           'base': desc['base']})
